@@ -456,6 +456,16 @@ func (m *Manager) RegisterServer(name, path string, pskLength int, tcpCredStore,
 		path:      path,
 		saveQueue: make(chan struct{}, 1),
 		logger:    m.logger,
+
+		// An empty store file is an empty store.
+		cachedCredMap:       make(map[string]*cachedUserCredential),
+		cachedUserLookupMap: make(ss2022.UserLookupMap),
+	}
+	if tcpCredStore != nil {
+		tcpCredStore.ReplaceUserLookupMap(make(ss2022.UserLookupMap))
+	}
+	if udpCredStore != nil {
+		udpCredStore.ReplaceUserLookupMap(make(ss2022.UserLookupMap))
 	}
 	if err := s.LoadFromFile(); err != nil {
 		return nil, fmt.Errorf("failed to load credentials for server %s: %w", name, err)
